@@ -45,6 +45,7 @@ HAY_YAML = [
     '"1_000"', '"(1"', "\"'q'\"", '"a b"', '"a.b"', "2020-01-01",
     "2001-12-14T21:59:43.10-05:00", '"é"', '"1+"', '"..."',
     '"1.1.5"', '"1.5-rc1"', '"3.0.1"', '"5 apples"',
+    "&B1 true", "&B2 false", "&I1 1", "&S1 true-ish",
 ]
 NEEDLES = [
     "", " ", "0", "1", "-1", "1000", "1.0", "2.5", "01", "a", "A", "ab", "b",
